@@ -139,7 +139,7 @@ fn decode_web_response(chunks: &[Vec<u8>], text: bool) -> Result<(Vec<u8>, Vec<V
 
 fn response_case(rng: &mut Rng, ctx: &mut Ctx) {
     let n = rng.urange(0, 4);
-    let frames: Vec<(u8, Vec<u8>)> = (0..n).map(|_| (rng.chance(1, 4) as u8, rng.payload_of(&[0usize, 1, 2, 3, 5, 100, 3000]))).collect();
+    let frames: Vec<(u8, Vec<u8>)> = (0..n).map(|_| (rng.chance(1, 4) as u8, rng.payload_of(if small() { &[0usize, 1, 2, 3, 5, 30] } else { &[0usize, 1, 2, 3, 5, 100, 3000] }))).collect();
     let trailers = gen_trailers(rng);
     let mut grpc = Vec::new();
     let mut starts = Vec::new();
@@ -264,7 +264,7 @@ fn request_case(rng: &mut Rng, ctx: &mut Ctx) {
     let mut starts = Vec::new();
     for _ in 0..n {
         starts.push(grpc.len());
-        grpc.extend(ref_frame(rng.chance(1, 5) as u8, &rng.payload_of(&[0usize, 1, 2, 3, 4, 100, 2000])));
+        grpc.extend(ref_frame(rng.chance(1, 5) as u8, &rng.payload_of(if small() { &[0usize, 1, 2, 3, 4, 30] } else { &[0usize, 1, 2, 3, 4, 100, 2000] })));
     }
     let ctype = *rng.pick(&["application/grpc-web", "application/grpc-web+proto", "application/grpc-web-text", "application/grpc-web-text+proto"]);
     let text = ctype.contains("text");
